@@ -146,6 +146,7 @@ func runShard(u *unit, shard int, id, tier string, extraEnv []string) shardResul
 		"VERIF_SHARDS=" + strconv.Itoa(u.Shards),
 		"VERIF_KNOWN=" + filepath.Join(verifRoot, "known_findings.json"),
 		"VERIF_WORK=" + workDir,
+		"VERIF_GO=" + goBin,
 		"GOTRACEBACK=single",
 	}, u.Env...)
 	env = append(env, extraEnv...)
